@@ -169,6 +169,8 @@ FORMS = {
         ("f(_,...[b,c])(a)", "{f}(_, ...[{b}, {c}])({a})"), ("f(_,b,...[c])(a)", "{f}(_, {b}, ...[{c}])({a})"),
         ("f(...[a],_,c)(b)", "{f}(...[{a}], _, {c})({b})")],
 }
+INLINE_KINDS = ("list", "vector", "bytes", "dict", "str", "stream")
+INLINE_FORMS = {1: 2, 2: 6, 3: 2}          # how many leading forms of each arity also get an inline spelling
 F_LSEC = ("(a f)(b)", "({a} {f})({b})")
 F_RSEC = ("f(b)(a)", "{f}({b})({a})")
 F_OPASSIGN = ("x f= b", "opx := {a}; opx {fa} {b}; opx")
@@ -199,6 +201,12 @@ def forms_for(c, args, isfn):
     """[(form name, statement)] for one tuple; the conditional forms only where the statement lists them."""
     ar = len(args)
     out = [(n, c.render(t, args)) for n, t in FORMS[ar]]
+    # the same forms with the arguments written inline (fresh, uniquely owned temporaries instead of
+    # values held by a variable): copy-on-write fast paths must not change the result
+    if any(pool.BY_NAME[a][2] in INLINE_KINDS for a in args):
+        inl = ["(%s)" % pool.BY_NAME[a][1] for a in args]
+        for n, t in FORMS[ar][:INLINE_FORMS[ar]]:
+            out.append(("inline " + n, c.render(t, inl)))
     if ar == 2:
         if pool.BY_NAME[args[0]][2] not in FUNC_KINDS:
             out.append((F_LSEC[0], c.render(F_LSEC[1], args)))
